@@ -295,8 +295,15 @@ pub fn gen_tape(r: &mut Rng, profile: Profile, allow_sweep: bool) -> Tape {
         let dir = r.usize_below(2);
         let from = r.below(horizon as u64 + 20) as u32;
         let hold = r.range(150, 1500) as u32;
+        // half of the stalls also lose every other datagram or so of the held ones (never two in a row, so the
+        // profile stays survivable): the late acknowledgements then have holes
+        let lossy = r.one_in(2);
         for o in from..from + r.range(5, 40) as u32 {
-            tape.entries[dir].entry(o).or_insert(Fault::Delay { ms: hold });
+            let f = if lossy && (o - from) % 2 == 1 && r.one_in(2) { Fault::Drop } else { Fault::Delay { ms: hold } };
+            tape.entries[dir].entry(o).or_insert(f);
+        }
+        if lossy {
+            cap_destruction_runs(&mut tape.entries[dir], 2);
         }
     }
     if allow_sweep && r.one_in(4) {
